@@ -9,7 +9,7 @@
    str    = the UTF-8 bytes of a Rust String (member strings, hex strings);
    L      = digest length in bytes (32 / 16), H the hash with its output already
             truncated to L bytes -- both parameters (Section variables), never axioms. *)
-From LP Require Import Prelude Pay Consts.
+From LP Require Import Prelude Pay Consts Semver.
 Local Open Scope N_scope.
 
 Notation bytes := (list N) (only parsing).
@@ -421,6 +421,50 @@ Fixpoint tw_run (h : list (N * addr * tw_msg)) (s : tw_state) : tw_state :=
   | [] => s
   | (now, sender, m) :: r =>
       match tw_execute now sender m s with Ok s' => tw_run r s' | Err => tw_run r s end
+  end.
+
+(* ---------- migrate (both Merkle whitelists, same code) ----------
+   The chain refuses a migrate from anyone but the wasm admin (by_admin).  The entry point
+   then requires the stored cw2 name to be its own (name_ok), the stored version to parse
+   (ver = None otherwise) and not to be newer than the code's; it rewrites the cw2 record
+   only when the stored version is older.  Nothing else is touched: the modelled state is
+   returned as it is (a frame on roots, stages, admins, window). *)
+Definition MERKLE_CUR_VERSION : version := workspace_version_triple.
+Definition merkle_migrate_ok (by_admin name_ok : bool) (ver : option version) : bool :=
+  by_admin && name_ok &&
+  match ver with Some v => negb (ver_ltb MERKLE_CUR_VERSION v) | None => false end.
+Definition wl_migrate (by_admin name_ok : bool) (ver : option version) (s : wl_state) : result wl_state :=
+  if merkle_migrate_ok by_admin name_ok ver then Ok s else Err.
+Definition tw_migrate (by_admin name_ok : bool) (ver : option version) (s : tw_state) : result tw_state :=
+  if merkle_migrate_ok by_admin name_ok ver then Ok s else Err.
+
+(* histories of Execute and Migrate calls *)
+Inductive wl_step :=
+| WsExec (now : N) (sender : addr) (m : wl_msg)
+| WsMigrate (by_admin name_ok : bool) (ver : option version).
+Definition wl_apply (st : wl_step) (s : wl_state) : result wl_state :=
+  match st with
+  | WsExec now sender m => wl_execute now sender m s
+  | WsMigrate a n v => wl_migrate a n v s
+  end.
+Fixpoint wl_run_steps (h : list wl_step) (s : wl_state) : wl_state :=
+  match h with
+  | [] => s
+  | st :: r => match wl_apply st s with Ok s' => wl_run_steps r s' | Err => wl_run_steps r s end
+  end.
+
+Inductive tw_step :=
+| TsExec (now : N) (sender : addr) (m : tw_msg)
+| TsMigrate (by_admin name_ok : bool) (ver : option version).
+Definition tw_apply (st : tw_step) (s : tw_state) : result tw_state :=
+  match st with
+  | TsExec now sender m => tw_execute now sender m s
+  | TsMigrate a n v => tw_migrate a n v s
+  end.
+Fixpoint tw_run_steps (h : list tw_step) (s : tw_state) : tw_state :=
+  match h with
+  | [] => s
+  | st :: r => match tw_apply st s with Ok s' => tw_run_steps r s' | Err => tw_run_steps r s end
   end.
 
 Definition stage_active (now : N) (s : stage) : bool := (st_start s <=? now) && (now <=? st_end s).
